@@ -19,7 +19,22 @@ CONFIGS = {
     "std": [],
     "alloc": ["--no-default-features", "--features", "alloc"],
     "core": ["--no-default-features"],
+    # the same feature sets built with the release profile (debug_assertions off, overflow checks off): the pinned
+    # tests only ever build the dev profile, so code under #[cfg(debug_assertions)] / #[cfg(not(debug_assertions))]
+    # is invisible to them
+    "std-rel": ["--release"],
+    "alloc-rel": ["--no-default-features", "--features", "alloc", "--release"],
+    "core-rel": ["--no-default-features", "--release"],
 }
+
+
+def base(config):
+    """feature set of a configuration name ('std-rel' -> 'std')"""
+    return config.split("-")[0]
+
+
+def profile(config):
+    return "release" if config.endswith("-rel") else "dev"
 
 
 class Inconclusive(Exception):
@@ -97,7 +112,7 @@ def extract(config, repo=None, force=False):
                 os.remove(out)
             target = os.path.join(CACHE, "target-" + config)
             # never let cargo replay a stale result for the member crate
-            fp = os.path.join(target, "debug", ".fingerprint")
+            fp = os.path.join(target, "release" if config.endswith("-rel") else "debug", ".fingerprint")
             if os.path.isdir(fp):
                 for e in os.listdir(fp):
                     if e.startswith("futures-concurrency-"):
